@@ -154,6 +154,18 @@ def run(ctx):
             n17 += 1
             ctx.ob("R10", "file selection/" + o["key"].split(":", 1)[1], o["ok"], o["detail"], where=o.get("where"), nontrivial=o.get("nontrivial", True))
     ctx.floor("R10", "file-selection obligations shared with C17 R5", n17, 5)
+    # scanning several fixable rules together applies what each applies alone: the accept loop of -U/-i assumes document order, so the
+    # scan's order must reach it (the C18 R1 obligation; grouping the matches by rule first makes a later rule's non-nested match look
+    # "overlapping")
+    from . import c18
+    sub18 = prog.__dict__.get("_c18_sub")
+    if sub18 is None:
+        sub18 = Ctx("C18", ctx.tier, prog)
+        c18.run(sub18)
+        prog.__dict__["_c18_sub"] = sub18
+    for o in sub18.obligations:
+        if "not re-sorted on its way to the accept loop" in o["key"]:
+            ctx.ob("R10", "many rules/" + o["key"].split(":", 1)[1], o["ok"], o["detail"], where=o.get("where"), nontrivial=o.get("nontrivial", True))
     impls = matcher_impls(prog)
     ctx.floor("R1", "Matcher impls", len(impls), 22)
     r1_r2(ctx, impls)
